@@ -228,6 +228,8 @@ func runC14(t *testing.T, rng *rand.Rand, rec *sim.Rec, tier string, caseNo int)
 		{5 * time.Minute, 10 * time.Minute, 45 * time.Minute},
 		{3 * time.Minute, 20 * time.Minute, 5 * time.Minute},
 		{30 * time.Minute, 7 * time.Minute, 2 * time.Hour},
+		// only the allocation lifetime is configured (short): permissions and channels keep their defaults
+		{0, 0, 3 * time.Minute}, {0, 0, 90 * time.Second},
 	}
 	conf := pick(rng, confs)
 	if caseNo%10 == 7 {
